@@ -97,7 +97,8 @@ ApiBodies == {"none", "empty", "ok", "notjson", "trunc", "array", "null", "strin
               "wrongtype_str", "wrongtype_obj", "wrongtype_arr", "wrongtype_bool", "nullfields", "huge", "exp", "neg", "float", "max64",
               "emptystr", "longstr", "unknown", "nested", "nested_open", "dup", "dup_types", "big", "utf", "bom", "trailing", "caps"}
 ApiSpecial == [ start_relay_pull |-> {"url_empty", "url_garbage", "url_noscheme", "url_nopath", "url_onlyapp", "url_badport", "url_rtsp",
-                                      "url_rtsp_user", "url_flv", "url_unknown", "url_space", "url_long", "url_ipv6"},
+                                      "url_rtsp_user", "url_flv", "url_unknown", "url_space", "url_long", "url_ipv6",
+                                      "url_q1", "url_q2", "url_q2app", "url_q2root", "url_q3", "url_frag", "url_qonly"},
                 start_rtp_pub |-> {"rtp_port_neg", "rtp_port_big", "rtp_port_1", "rtp_tcp", "rtp_dump", "rtp_empty_name"},
                 add_ip_blacklist |-> {"bl_badip", "bl_neg", "bl_max"},
                 kick_session |-> {"kick_empty", "kick_nostream"} ]
